@@ -1,14 +1,13 @@
-SPECIFICATION MSpec
+SPECIFICATION Spec
 CONSTANTS
   MaxOff = 4
   RollAt = 2
   AutoSync = FALSE
-  MaxDel = 1
+  MaxDel = 2
   FixRecoverStale = TRUE
   FixShortHdr = TRUE
   FixTailOrder = TRUE
-  FreshTmp = TRUE
+  FreshTmp = FALSE
   KnownRebase = TRUE
-  KeepIndex = FALSE
-INVARIANTS NoCrashOK MigrateOK CrashM1 CrashM2 Crash1
+INVARIANTS NoCrashOK Crash1 Crash2
 CHECK_DEADLOCK FALSE
